@@ -32,6 +32,9 @@ func genReaderCfg(t *rapid.T) ConnCfg {
 	if c.Server {
 		c.HijackR = rapid.SampledFrom([]int{0, 0, 16, 200, 256, 257, 1024}).Draw(t, "hijack_r")
 	}
+	if !c.Compress {
+		c.Declined = rapid.IntRange(0, 2).Draw(t, "offer_declined") == 0
+	}
 	return c
 }
 
